@@ -157,6 +157,11 @@ namespace
         auto do_update = [&](bool repeat_check)
         {
             arr_t zin = to_arr(env.g, cur.z);
+            // sometimes the cells under the mask carry a no-data value (the same one for every graph given these inputs)
+            const bool with_nodata = !cur.mask.empty() && rng.chance(0.25);
+            const double nodata = pick_nodata(rng);
+            if (with_nodata && write_nodata_under_mask(nodata, cur.mask, zin) > 0)
+                R.count("c09.updates_with_nodata_under_mask");
             arr_t zcopy = zin;
             const arr_t& hout = U.graph->update_routes(zin);
             // (1) the caller's array is untouched
@@ -175,7 +180,10 @@ namespace
             const bool share_grid = rng.chance(0.3);
             if (share_grid)
                 R.count("c09.fresh_graph_on_shared_grid");
-            GraphBundle F = build_graph(share_grid ? *env.grid : *fresh_grid, ops);
+            const bool share_ops = rng.chance(0.25);
+            if (share_ops)
+                R.count("c09.fresh_graph_sharing_operator_objects");
+            GraphBundle F = share_ops ? build_graph_sharing_operators(share_grid ? *env.grid : *fresh_grid, U) : build_graph(share_grid ? *env.grid : *fresh_grid, ops);
             // the getters of the long-lived graph reflect the inputs in force
             {
                 auto bl = U.graph->base_levels();
@@ -198,6 +206,8 @@ namespace
             if (!cur.mask.empty())
                 F.graph->set_mask(to_mask(env.g, cur.mask));
             arr_t zin2 = to_arr(env.g, cur.z);
+            if (with_nodata)
+                write_nodata_under_mask(nodata, cur.mask, zin2);
             const arr_t& hf = F.graph->update_routes(zin2);
             Digest DF = state_digest(*F.graph, flat_vec(hf), single_final, src);
             std::string d = DU.diff(DF);
@@ -222,6 +232,8 @@ namespace
             {
                 // (3) repeating the call reproduces the state bit for bit
                 arr_t zin3 = to_arr(env.g, cur.z);
+                if (with_nodata)
+                    write_nodata_under_mask(nodata, cur.mask, zin3);
                 const arr_t& h3 = U.graph->update_routes(zin3);
                 Digest D3 = state_digest(*U.graph, flat_vec(h3), single_final, src);
                 std::string d3 = DU.diff(D3);
@@ -308,6 +320,22 @@ namespace
                 fix_domain(rng, env.R, cur, true);
                 if (cur.custom_bl)
                     U.graph->set_base_levels(cur.bl);
+                if (rng.chance(0.2))
+                {
+                    // a mask of another shape is refused and leaves the mask in force untouched (the comparison with the
+                    // fresh graph below decides whether anything leaked)
+                    xt::xarray<bool> bad = xt::xarray<bool>::from_shape(mismatched_shape(env.g, rng));
+                    bad.fill(true);
+                    try
+                    {
+                        U.graph->set_mask(bad);
+                        R.count("c09.mask_shape_mismatch_accepted");
+                    }
+                    catch (const std::runtime_error&)
+                    {
+                        R.count("c09.mask_shape_mismatch_refused");
+                    }
+                }
                 U.graph->set_mask(to_mask(env.g, cur.mask));
                 trace.push_back("set_mask(" + cls + ")");
                 change_since_update = true;
@@ -407,7 +435,7 @@ namespace
                     router_before = true;
             bool g = router_before && rng.chance(0.8);
             bool e = !g || rng.chance(0.5);
-            ops.insert(ops.begin() + static_cast<long>(pos), op_snap("snap" + std::to_string(j), g, e));
+            ops.insert(ops.begin() + static_cast<long>(pos), op_snap(std::string(j == 0 ? "zz" : (j == 1 ? "mm" : "aa")) + std::to_string(j), g, e));
         }
         return ops;
     }
@@ -620,6 +648,14 @@ namespace
                     DP.add_d("kernel(breadth_upstream)", run_kernel(*P.gb.graph, fs::flow_graph_traversal_dir::breadth_upstream, 1, 0, 0, dummy));
                     DS.add_d("kernel(depth_upstream)", run_kernel(sg, fs::flow_graph_traversal_dir::depth_upstream, 1, 0, 0, dummy));
                     DP.add_d("kernel(depth_upstream)", run_kernel(*P.gb.graph, fs::flow_graph_traversal_dir::depth_upstream, 1, 0, 0, dummy));
+                    if (rng.chance(0.3))
+                    {
+                        // level-parallel application walks the snapshot's own level bounds with its own worker pool
+                        const int nt = static_cast<int>(rng.range(2, 4));
+                        DS.add_d("kernel(breadth_upstream, level-parallel)", run_kernel(sg, fs::flow_graph_traversal_dir::breadth_upstream, nt, 0, 0, dummy));
+                        DP.add_d("kernel(breadth_upstream, level-parallel)", run_kernel(*P.gb.graph, fs::flow_graph_traversal_dir::breadth_upstream, 1, 0, 0, dummy));
+                        R.count("c16.parallel_kernels_on_snapshots");
+                    }
                     std::string d = DS.diff(DP);
                     if (!d.empty())
                         R.violation("C16", "graph_snapshot_differs:" + d.substr(0, d.find_first_of("[:")), witness("snapshot vs graph running only the prefix: " + d));
@@ -698,7 +734,9 @@ namespace
         C20Ref r;
         for (std::size_t i = 0; i < seq.size(); ++i)
         {
-            std::string name = "k" + std::to_string(i);
+            // names whose lexicographic order differs from the order in which they are given
+            static const char* const names[] = { "zeta", "mid", "alpha", "omega", "beta" };
+            std::string name = names[i % 5];
             switch (seq[i])
             {
                 case 0:
@@ -752,7 +790,8 @@ namespace
         std::vector<OpSpec> ops;
         for (std::size_t i = 0; i < seq.size(); ++i)
         {
-            std::string name = "k" + std::to_string(i);
+            static const char* const names[] = { "zeta", "mid", "alpha", "omega", "beta" };
+            std::string name = names[i % 5];
             switch (seq[i])
             {
                 case 0:
